@@ -140,6 +140,19 @@ def main():
                 break
         if viol:
             break
+    if masked_forms and not viol:
+        # an Info object that was used while its mask was flexible and is then given a fixed mask (users keep Info objects)
+        g = fm.UniformGrid((4, 3))
+        info = fm.Info(time=None, grid=g, units="m", mask=fm.Mask.FLEX)
+        a = np.arange(6, dtype=float).reshape(g.data_shape)
+        tools.prepare(a.copy(), info)
+        M = np.zeros(g.data_shape, dtype=bool)
+        M[1, 1] = True
+        info.mask = M
+        r = tools.prepare(a.copy(), info)
+        n += 1
+        if not np.ma.isMaskedArray(r.magnitude) or not np.array_equal(np.ma.getmaskarray(r.magnitude)[0], M):
+            viol.append("an Info that was used with a flexible mask and then given a fixed mask M (info.mask = M): prepare does not apply M afterwards")
     viol = viol[:3] + sorted(classes.values())
     res = {"evaluations": n, "distinct_nontrivial": len(distinct), "violations": [{"case": v} for v in viol],
            "rule": "payload forms x grids x unit pairs x mask specifications on real numpy/pint (exhaustive over the listed product); distinct = (grid, units, data units, mask, form)",
